@@ -130,7 +130,9 @@ impl Q32E2 {
             } else {
                 if reg_a == 30 {
                     bit_n_plus_one = (exp_a & 0x2) != 0;
-                    bits_more = (exp_a & 0x1) != 0;
+                    if (exp_a & 0x1) != 0 {
+                        bits_more = true;
+                    }
                     exp_a = 0;
                 } else if reg_a == 29 {
                     bit_n_plus_one = (exp_a & 0x1) != 0;
